@@ -130,6 +130,8 @@ type Segment struct {
 // the last process + the operation it is interrupted in.
 type Script struct {
 	AutoGC  bool      `json:"auto_gc,omitempty"`
+	// NoAutoSave: the store runs with AutoSaveIndex = false (only SaveIndex writes index.json)
+	NoAutoSave bool `json:"no_auto_save,omitempty"`
 	Blobs   []Blob    `json:"blobs"`
 	Pre     []Segment `json:"pre,omitempty"`
 	History []Op      `json:"history"`
